@@ -28,6 +28,8 @@ func init() {
 		{"utxoscanner", wlScanner}, {"broadcaster", wlBroadcaster},
 		// the whole client in the network simulation while user goroutines hammer the public read API
 		{"netsim-sync", netsim.RaceWorkload},
+		// checkpointed filter-header sync of the real block manager through the real work manager, >= 3 answering peers
+		{"cfcheckpt", wlCFCheckpt},
 	}
 }
 
